@@ -2,6 +2,8 @@ package main
 
 import (
 	"fmt"
+	"regexp"
+	"runtime/debug"
 	"strings"
 
 	"github.com/mikefarah/yq/v4/pkg/yqlib"
@@ -196,6 +198,26 @@ type realOutcome struct {
 	After   *AV
 	ErrText string
 	Nodes   []*yqlib.CandidateNode
+	// for St == "panic": the innermost frame of the yq module on the panicking stack
+	PanicSite string
+}
+
+var rePanicFrame = regexp.MustCompile(`(?m)^github\.com/mikefarah/yq/v4/(?:pkg/yqlib|cmd)\.([^\s(]+)\(`)
+
+// panicSite extracts the innermost yq function from a stack dump (debug.Stack() or a crashed process' stderr).
+func panicSite(stack []byte) string {
+	s := string(stack)
+	if i := strings.Index(s, "panic("); i >= 0 {
+		s = s[i:]
+	}
+	for _, m := range rePanicFrame.FindAllStringSubmatch(s, -1) {
+		f := m[1]
+		if strings.HasPrefix(f, "Verif") || strings.HasPrefix(f, "verif") || strings.Contains(f, "func") && strings.HasPrefix(f, "verifWrap") {
+			continue
+		}
+		return strings.TrimSuffix(strings.TrimPrefix(f, "(*"), ")")
+	}
+	return "unknown"
 }
 
 // evalReal decodes docJSON with yq's JSON decoder and evaluates expr in-process, under recover().
@@ -210,7 +232,7 @@ func evalReal(expr, docJSON string, together bool) (out realOutcome) {
 func evalRealOn(expr string, root *yqlib.CandidateNode, together bool) (out realOutcome) {
 	defer func() {
 		if r := recover(); r != nil {
-			out = realOutcome{St: "panic", ErrText: fmt.Sprint(r), After: alpha(root)}
+			out = realOutcome{St: "panic", ErrText: fmt.Sprint(r), After: alpha(root), PanicSite: panicSite(debug.Stack())}
 		}
 	}()
 	root.EvaluateTogether = together
